@@ -59,7 +59,9 @@ def backupLine (st : BkRun) (lineNo : Nat) (line : String) : Except String (BkRu
         -- a racing write happens during the upload that starts at raceAt: visible to later iterations only
         let gens : Nat → Nat := fun t => 1 + (writes.filter (· ≤ t)).length + (match raceAt with | some r => if r < t then 1 else 0 | none => 0)
         let oks : Nat → Bool := fun k => (script[k]?.getD "ok") == "ok"
-        let durs : Nat → Nat := fun _ => latency
+        -- a stalled upload ends when doBackup's own five-minute limit does
+        let durs : Nat → Nat := fun k => if (script[k]?.getD "ok") == "stall" then 300000 else latency
+        let maxDur := if script.contains "stall" then max latency 300000 else latency
         let waitAlways := Setec.Facts.backupWaitUnconditional.getD false
         let m := run waitAlways gens oks durs cancel (cancel / period + 5)
         let fileHashes := files.map (·.2)
@@ -85,15 +87,15 @@ def backupLine (st : BkRun) (lineNo : Nat) (line : String) : Except String (BkRu
            | none => []) ++
           -- once writes have stopped for long enough (one round for the pending change, one more per
           -- scripted failure, one spare) the newest successful backup is the current file
-          (let nfail := (script.filter (· == "fail")).length
-           if cancel ≥ lastWrite + (nfail + 2) * (60000 + latency) + latency + 1 &&
+          (let nfail := (script.filter (· != "ok")).length
+           if cancel ≥ lastWrite + (nfail + 2) * (60000 + maxDur) + maxDur + 1 &&
               (lastOK.map (·.hash)) != some (get "final")
            then [s!"PROPFAIL C17 converges_when_quiet {tag} ups={get "ups"} final={get "final"}"] else []) ++
           -- a failed attempt is retried one period later unless the task was cancelled first
-          ((ups.zipIdx.filter fun (u, i) => !u.ok && ups[i + 1]?.isNone && u.tms + latency + 60000 < cancel).map fun (u, _) =>
+          ((ups.zipIdx.filter fun (u, i) => !u.ok && ups[i + 1]?.isNone && u.tms + durs i + 60000 < cancel).map fun (u, _) =>
             s!"PROPFAIL C17 retry {tag} failed_at={u.tms} ups={get "ups"}") ++
           (if exitAt < 0 then [s!"PROPFAIL C17 terminates {tag} the task had not returned 10 min after cancellation"]
-           else if exitAt.toNat > cancel + latency then [s!"PROPFAIL C17 terminates {tag} exit={exitAt}"] else []) ++
+           else if exitAt.toNat > cancel + maxDur then [s!"PROPFAIL C17 terminates {tag} exit={exitAt}"] else []) ++
           (if m.attempts.map (·.tms) == times then [] else [s!"DIVERGE backup_schedule {tag} code={times} model={m.attempts.map (·.tms)}"]) ++
           (if m.attempts.map (·.ok) == ups.map (·.ok) || m.attempts.length != ups.length then [] else [s!"DIVERGE backup_outcomes {tag}"]) ++
           (if exitAt ≥ 0 && m.exit != some exitAt.toNat then [s!"DIVERGE backup_exit {tag} code={exitAt} model={repr m.exit}"] else [])
